@@ -2,8 +2,4 @@ package checks
 
 import "verif/harness/internal/core"
 
-func c05Socket(c *core.Collector, x *Ctx) {}
-
 func c14RealTime(c *core.Collector, x *Ctx) {}
-
-func c09Socket(c *core.Collector, x *Ctx) {}
